@@ -157,6 +157,14 @@ def traced_interpreter(tpl, limit=4000):
         def run(command, args):
             pc = interp.programCounter
             had_rep = interp.repeatVariable is not None
+            # the entry takes its place before the handler runs: ENDTAG_ENDSCOPE may execute a whole
+            # sub-template (whose commands are logged) before it returns
+            slot = None
+            if len(trace) < limit:
+                slot = [pc, ["n"]]
+                trace.append(slot)
+            elif len(trace) == limit:
+                trace.append(None)
             handler(command, args)
             tag = ["n"]
             if op == simpleTAL.TAL_CONDITION:
@@ -189,11 +197,8 @@ def traced_interpreter(tpl, limit=4000):
                     tag = ["m", "n"]
                 else:
                     tag = ["m", "o"]
-            if len(trace) < limit:
-                trace.append([pc, tag])
-            else:
-                trace.append(None)
-                del trace[limit + 1:]
+            if slot is not None:
+                slot[1] = tag
         return run
     for op in list(interp.commandHandler):
         interp.commandHandler[op] = wrap(op, interp.commandHandler[op])
